@@ -69,7 +69,7 @@ Theorem C10_refuted_chainc_single :
   exists e, compile toy_mangle (HExpr [sym [99;104;97;105;110;99]; x_]) = COk e /\ validate e = false.
 Proof. exact refuted_chainc_single. Qed.
 Theorem C10_refuted_dict_unpack_misaligned :
-  exists e, compile toy_mangle (HDict [x_; HExpr [HSym s_unpack_mapping; x_]; x_; x_]) = COk e /\ validate e = false.
+  exists e, compile toy_mangle (HDict [x_; HExpr [HSym s_unpack_mapping; x_]; x_]) = COk e /\ validate e = false.
 Proof. exact refuted_dict_unpack_misaligned. Qed.
 (* after the fixes bac53a5 / c0e258f an odd dict and a #** operand of a comparison are user-facing errors *)
 Example C10_odd_dict_is_user_error : compile toy_mangle (HDict [HInt 1]) = CUser.
